@@ -8,14 +8,59 @@ open M_ovec
 
 let fuel = i2n 10000
 
-let run_with (type st) (kind : string) (cap : int) (limit0 : int) (okd : kind)
+(* what the event loop needs from the model, for either flavour *)
+type 'state machine = {
+  m_init : 'state;
+  m_step : 'state -> nat fev -> ('state * nat diff list option poll option) res;  (* answer of FPoll *)
+  m_attached : 'state -> bool;
+  m_view : 'state -> nat list;
+  m_ok : 'state -> bool;
+  m_waiting : 'state -> bool;      (* the vector's receiver of the adapter is waiting *)
+  m_registered : 'state -> bool;   (* the observable's waker list holds the limit subscriber *)
+}
+
+let nat_eq (a : nat) (b : nat) = (a = b)
+
+let machine_u (type st) cap okd limit0
     ~(on_diff : st -> nat diff -> (st * nat diff list) outcome)
     ~(on_param : st -> nat -> st * nat diff list option)
-    ~(init : nat -> nat list -> st * nat list)
-    (ops : string list) : string =
-  let nat_eq (a : nat) (b : nat) = (a = b) in
-  let step s e = fstep nat_eq nat_eq O on_diff on_param init s e in
-  let s : (nat, st) fs ref = ref (fs_init (i2n cap) okd (i2n limit0)) in
+    ~(init : nat -> nat list -> st * nat list) : (nat, st) fs machine =
+  { m_init = fs_init (i2n cap) okd (i2n limit0);
+    m_step = (fun s e ->
+        match fstep nat_eq nat_eq O on_diff on_param init s e with
+        | ROk (s', FAnswer r) ->
+          ROk (s', Some (match r with Pending -> Pending | Ready None -> Ready None | Ready (Some d) -> Ready (Some [d])))
+        | ROk (s', FNone) -> ROk (s', None)
+        | RFuel -> RFuel | RPanic -> RPanic);
+    m_attached = (fun s -> s.f_ad <> None);
+    m_view = (fun s -> match s.f_ad with Some a -> a.a_view | None -> []);
+    m_ok = (fun s -> s.f_ok);
+    m_waiting = (fun s -> match s.f_ad with
+        | Some a -> (match nth_error s.f_g.g_o.subs a.a_k with Some (Some sb) -> sb.sb_waiting | _ -> false)
+        | None -> false);
+    m_registered = (fun s -> match s.f_ad with Some a -> List.mem a.a_j s.f_lim.wakers | None -> false) }
+
+let machine_b (type st) cap okd limit0
+    ~(on_diff : st -> nat diff -> (st * nat diff list) outcome)
+    ~(on_param : st -> nat -> st * nat diff list option)
+    ~(init : nat -> nat list -> st * nat list) : (nat, st) fsb machine =
+  { m_init = fsb_init (i2n cap) okd (i2n limit0);
+    m_step = (fun s e ->
+        match fstep_b nat_eq nat_eq O on_diff on_param init s e with
+        | ROk (s', FBAnswer r) -> ROk (s', Some r)
+        | ROk (s', FBNone) -> ROk (s', None)
+        | RFuel -> RFuel | RPanic -> RPanic);
+    m_attached = (fun s -> s.fb_ad <> None);
+    m_view = (fun s -> match s.fb_ad with Some a -> a.b_view | None -> []);
+    m_ok = (fun s -> s.fb_ok);
+    m_waiting = (fun s -> match s.fb_ad with
+        | Some a -> (match nth_error s.fb_g.g_o.subs a.b_k with Some (Some sb) -> sb.sb_waiting | _ -> false)
+        | None -> false);
+    m_registered = (fun s -> match s.fb_ad with Some a -> List.mem a.b_j s.fb_lim.wakers | None -> false) }
+
+let run_with (type state) (kind : string) (limit0 : int) (m : state machine) (ops : string list) : string =
+  let step s e = m.m_step s e in
+  let s : state ref = ref m.m_init in
   let do_ev e = (match step !s e with ROk (s', _) -> s := s' | _ -> ()) in
   let shadow = ref [] in
   let cur = ref limit0 and announced = ref limit0 and silent = ref false in
@@ -25,15 +70,10 @@ let run_with (type st) (kind : string) (cap : int) (limit0 : int) (okd : kind)
   let last_pending = ref false and reported = ref false in
   let expected limit src =
     if kind = "head" then take limit src else drop limit src in
-  let view_of () = (match !s.f_ad with Some a -> List.map n2i a.a_view | None -> []) in
-  let fired (before : (nat, st) fs) (after : (nat, st) fs) : bool =
-    match before.f_ad with
-    | None -> false
-    | Some a ->
-      let waiting (f : (nat, st) fs) =
-        (match nth_error f.f_g.g_o.subs a.a_k with Some (Some sb) -> sb.sb_waiting | _ -> false) in
-      let registered (f : (nat, st) fs) = List.mem a.a_j f.f_lim.wakers in
-      (waiting before && not (waiting after)) || (registered before && not (registered after)) in
+  let view_of () = List.map n2i (m.m_view !s) in
+  let fired (before : state) (after : state) : bool =
+    m.m_attached before &&
+    ((m.m_waiting before && not (m.m_waiting after)) || (m.m_registered before && not (m.m_registered after))) in
   let parts = ref [] in
   let emit t = parts := t :: !parts in
   let stop = ref false in
@@ -46,7 +86,7 @@ let run_with (type st) (kind : string) (cap : int) (limit0 : int) (okd : kind)
       let rest' = ref rest in
       let text =
         if name = "A" then begin
-          if !s.f_ad = None && !vec_alive && !lim_alive then begin
+          if not (m.m_attached !s) && !vec_alive && !lim_alive then begin
             let n = !cur in
             do_ev FAttach;
             adapter_limit := n;
@@ -56,17 +96,17 @@ let run_with (type st) (kind : string) (cap : int) (limit0 : int) (okd : kind)
           end else "A-"
         end
         else if name = "P" || name = "D" then begin
-          if !s.f_ad = None then "-"
+          if not (m.m_attached !s) then "-"
           else begin
             let items = ref [] and fin = ref 'P' and continue = ref true and cnt = ref 0 in
             let panicked = ref false in
             while !continue do
               incr cnt;
               (match step !s (FPoll fuel) with
-               | ROk (s', FAnswer (Ready (Some d))) ->
-                 s := s'; items := show_diff d :: !items; fin := 'R'; last_pending := false
-               | ROk (s', FAnswer (Ready None)) -> s := s'; fin := 'N'; last_pending := false; continue := false
-               | ROk (s', FAnswer Pending) ->
+               | ROk (s', Some (Ready (Some ds))) ->
+                 s := s'; items := String.concat "|" (List.map show_diff ds) :: !items; fin := 'R'; last_pending := false
+               | ROk (s', Some (Ready None)) -> s := s'; fin := 'N'; last_pending := false; continue := false
+               | ROk (s', Some Pending) ->
                  s := s'; fin := 'P'; last_pending := true; reported := false; continue := false
                | _ -> panicked := true; continue := false);
               if name = "P" || !cnt > 10000 then continue := false
@@ -80,7 +120,7 @@ let run_with (type st) (kind : string) (cap : int) (limit0 : int) (okd : kind)
                 let checkable = (not !silent) && (not !uncertain) in
                 let v = view_of () in
                 let ok = (not checkable) || (v = expected !adapter_limit !shadow) in
-                t ^ Printf.sprintf " v=%s ok:fullview=%s ok:fullapp=%s" (show_ivec v) (b2s ok) (b2s !s.f_ok)
+                t ^ Printf.sprintf " v=%s ok:fullview=%s ok:fullapp=%s" (show_ivec v) (b2s ok) (b2s (m.m_ok !s))
               end else t
             end
           end
@@ -164,13 +204,18 @@ let run_case (case : string) : string =
   let limit0 = int_of_string (List.nth hw 2) in
   let okd = if List.nth hw 3 = "u" then Unique else Shared in
   let ops = List.filter (fun s -> s <> "") (List.map String.trim (Str.split (Str.regexp_string " ; ") evs)) in
-  match kind with
-  | "head" ->
-    run_with kind cap limit0 okd ~on_diff:head_on_diff ~on_param:head_update_limit
-      ~init:(fun n l -> let (v, st) = head_init n l in (st, v)) ops
-  | "skip" ->
-    run_with kind cap limit0 okd ~on_diff:skip_on_diff ~on_param:skip_update_count
-      ~init:(fun n l -> let (v, st) = skip_init n l in (st, v)) ops
-  | k -> failwith ("bad adapter " ^ k)
+  let batched = (List.length hw > 4 && List.nth hw 4 = "b") in
+  let hinit n l = let (v, st) = head_init n l in (st, v) in
+  let sinit n l = let (v, st) = skip_init n l in (st, v) in
+  match kind, batched with
+  | "head", false ->
+    run_with kind limit0 (machine_u cap okd limit0 ~on_diff:head_on_diff ~on_param:head_update_limit ~init:hinit) ops
+  | "skip", false ->
+    run_with kind limit0 (machine_u cap okd limit0 ~on_diff:skip_on_diff ~on_param:skip_update_count ~init:sinit) ops
+  | "head", true ->
+    run_with kind limit0 (machine_b cap okd limit0 ~on_diff:head_on_diff ~on_param:head_update_limit ~init:hinit) ops
+  | "skip", true ->
+    run_with kind limit0 (machine_b cap okd limit0 ~on_diff:skip_on_diff ~on_param:skip_update_count ~init:sinit) ops
+  | k, _ -> failwith ("bad adapter " ^ k)
 
 let run_line (line : string) = print_string (run_case line); print_newline ()
